@@ -33,8 +33,13 @@ pub enum Tier {
 pub struct Ctx {
     pub tier: Tier,
     pub seed: u64,
+    /// worker threads inside one process
     pub threads: usize,
+    /// worker processes (1 = stay in this process)
+    pub procs: usize,
     pub variant: String,
+    /// Some((index, count, output file)) in a shard process
+    pub shard: Option<(usize, usize, String)>,
 }
 
 impl Ctx {
@@ -54,17 +59,72 @@ impl Ctx {
     }
 }
 
-/// Run `f` over the items on `ctx.threads` worker threads; every worker has
-/// its own Report (library objects are never shared between threads).
+/// Run `f` over the items in parallel; every worker has its own Report (library
+/// objects are never shared between workers).
+///
+/// Workers are *processes* when `ctx.procs > 1`: the harness re-executes itself
+/// with VERIF_SHARD=i/n, each child handles the items with index = i (mod n) and
+/// ships its report back. (Threads would serialise on the process-wide stderr
+/// lock: constructing a u8-word reader prints the library's look-ahead
+/// diagnostic, and the workloads construct millions of readers.) A monitor must
+/// call par_items exactly once: a shard process exits at the end of it.
 pub fn par_items<T: Sync, F>(ctx: &Ctx, prop: &str, items: &[T], f: F) -> Report
 where
     F: Fn(&T, &mut Report) + Sync,
 {
-    let nthreads = ctx.threads.max(1).min(items.len().max(1));
+    if let Some((i, n, out)) = &ctx.shard {
+        // child: my share of the items, on my threads
+        let mine: Vec<&T> = items.iter().enumerate().filter(|(k, _)| k % n == *i).map(|(_, t)| t).collect();
+        let rep = par_threads(ctx.threads, prop, &mine, |t, r| f(*t, r));
+        std::fs::write(out, rep.to_bytes()).expect("cannot write shard report");
+        std::process::exit(0);
+    }
+    if ctx.procs <= 1 || items.len() <= 1 {
+        let refs: Vec<&T> = items.iter().collect();
+        return par_threads(ctx.threads, prop, &refs, |t, r| f(*t, r));
+    }
+    let n = ctx.procs.min(items.len());
+    let exe = std::env::current_exe().expect("current_exe");
+    let args: Vec<String> = std::env::args().skip(1).collect();
+    let dir = std::env::var("VERIF_SHARD_DIR").unwrap_or_else(|_| std::env::temp_dir().to_string_lossy().to_string());
+    let tag = format!("{}-{}-{}", prop, std::process::id(), ctx.variant);
+    let mut children = vec![];
+    for i in 0..n {
+        let out = format!("{}/shard-{}-{}.bin", dir, tag, i);
+        let child = std::process::Command::new(&exe)
+            .args(&args)
+            .env("VERIF_SHARD", format!("{}/{}", i, n))
+            .env("VERIF_SHARD_OUT", &out)
+            .stdout(std::process::Stdio::null())
+            .spawn()
+            .expect("cannot spawn shard process");
+        children.push((child, out));
+    }
+    let mut total = Report::new(prop);
+    for (i, (mut child, out)) in children.into_iter().enumerate() {
+        let status = child.wait().expect("wait");
+        match (status.success(), std::fs::read(&out)) {
+            (true, Ok(bytes)) => total.merge(Report::from_bytes(&bytes)),
+            _ => total.inconclusive(format!("shard {}/{} failed ({:?})", i, n, status.code())),
+        }
+        let _ = std::fs::remove_file(&out);
+    }
+    total
+}
+
+fn par_threads<T: Sync, F>(threads: usize, prop: &str, items: &[T], f: F) -> Report
+where
+    F: Fn(&T, &mut Report) + Sync,
+{
+    let nthreads = threads.max(1).min(items.len().max(1));
     let mut total = Report::new(prop);
     if nthreads <= 1 {
-        for it in items {
+        for (i, it) in items.iter().enumerate() {
+            let t0 = std::time::Instant::now();
             f(it, &mut total);
+            if std::env::var_os("VERIF_PROFILE").is_some() && t0.elapsed().as_secs_f64() > 0.5 {
+                eprintln!("[profile] item {} took {:.2}s", i, t0.elapsed().as_secs_f64());
+            }
         }
         return total;
     }
@@ -115,7 +175,14 @@ fn main() {
         .and_then(|s| s.parse().ok())
         .unwrap_or_else(|| std::thread::available_parallelism().map(|n| n.get()).unwrap_or(4));
     let variant = arg_value(&args, "--variant").unwrap_or_else(|| "r-def".to_string());
-    let ctx = Ctx { tier, seed, threads, variant: variant.clone() };
+    let shard = std::env::var("VERIF_SHARD").ok().and_then(|s| {
+        let (a, b) = s.split_once('/')?;
+        Some((a.parse().ok()?, b.parse().ok()?, std::env::var("VERIF_SHARD_OUT").ok()?))
+    });
+    // default: one single-threaded process per core (no shared stderr lock); Miri cannot spawn
+    let procs: usize = arg_value(&args, "--procs").and_then(|s| s.parse().ok()).unwrap_or(if tier == Tier::Tiny { 1 } else { threads });
+    let threads = if shard.is_some() { 1 } else if procs > 1 { 1 } else { threads };
+    let ctx = Ctx { tier, seed, threads, procs, variant: variant.clone(), shard };
 
     match args[1].as_str() {
         "run" => {
